@@ -266,9 +266,26 @@ fn wild_building_lines(quick: bool) -> BoxedStrategy<Vec<String>> {
         .boxed()
 }
 
+/// valid files from the DHW grammar (reach the DHW indicator's deep branches: biomass with SALIDA,
+/// mixed carriers, PV, auxiliaries) plus an optional cogeneration pair
+fn dhw_lines() -> BoxedStrategy<Vec<String>> {
+    (crate::dhw::dhw_case(6), any::<bool>())
+        .prop_map(|(d, cogen)| {
+            let mut b = d.building();
+            if cogen {
+                let n = d.n;
+                b.lines.push(crate::gen::Line { id: 30, kind: crate::gen::Kind::Prod { src: crate::dom::Src::EL_COGEN }, vals: vec![5.0; n], comment: String::new() });
+                b.lines.push(crate::gen::Line { id: 30, kind: crate::gen::Kind::Used { srv: crate::dom::Srv::COGEN, car: crate::dom::Car::BIOMASA }, vals: vec![12.0; n], comment: String::new() });
+            }
+            b.render().lines().map(|s| s.to_string()).collect::<Vec<String>>()
+        })
+        .boxed()
+}
+
 fn comps_text_s(quick: bool) -> BoxedStrategy<Text> {
     prop_oneof![
-        7 => (wild_building_lines(quick), vec(corr_s(), 0..=3)).prop_map(|(lines, ops)| Text::Corrupted { lines, ops }),
+        6 => (wild_building_lines(quick), vec(corr_s(), 0..=3)).prop_map(|(lines, ops)| Text::Corrupted { lines, ops }),
+        2 => (dhw_lines(), vec(corr_s(), 0..=2)).prop_map(|(lines, ops)| Text::Corrupted { lines, ops }),
         2 => soup_s(),
         1 => Just(Text::Soup(vec![])),
     ]
@@ -290,9 +307,9 @@ fn factors_text_s() -> BoxedStrategy<Option<Text>> {
         "#META CTE_PERIMETRO: NEARBY",
     ]);
     prop_oneof![
-        3 => Just(None),
-        5 => (valid, vec(prop_oneof![3 => corr_s(), 1 => (any::<u8>(), extra).prop_map(|(a, t)| Corr::InsertRaw(a, t.to_string()))], 0..=3)).prop_map(|(lines, ops)| Some(Text::Corrupted { lines, ops })),
-        2 => soup_s().prop_map(Some),
+        5 => Just(None),
+        4 => (valid, vec(prop_oneof![3 => corr_s(), 1 => (any::<u8>(), extra).prop_map(|(a, t)| Corr::InsertRaw(a, t.to_string()))], 0..=3)).prop_map(|(lines, ops)| Some(Text::Corrupted { lines, ops })),
+        1 => soup_s().prop_map(Some),
     ]
     .boxed()
 }
@@ -433,7 +450,7 @@ impl Prop for C16 {
         (
             comps_text_s(quick),
             factors_text_s(),
-            select(vec!["PENINSULA", "BALEARES", "CANARIAS", "CEUTAMELILLA", "MADRID", ""]),
+            select(vec!["PENINSULA", "BALEARES", "CANARIAS", "CEUTAMELILLA", "PENINSULA", "CANARIAS", "MADRID", ""]),
             wild_f32(),
             wild_f32(),
             any::<bool>(),
